@@ -12,6 +12,7 @@ import (
 	"sync"
 	"testing"
 	"testing/synctest"
+	"time"
 
 	"verifharness/internal/abs"
 )
@@ -36,7 +37,77 @@ type trace struct {
 	N       int       `json:"n"`
 	M       int       `json:"m"`
 	Ev      [][]tstep `json:"ev"`
+	Wt      [][]wstep `json:"wt,omitempty"` // watchers: registration, then the values they were called with
 	Final   [][3]int  `json:"final"`
+}
+
+type wstep struct {
+	A    string   `json:"a"`              // watch | deliver
+	Kind string   `json:"kind,omitempty"` // key | prefix
+	In   [][3]int `json:"in"`
+}
+
+// watcher is one WatchKey / WatchPrefix call running on its own goroutine inside the bubble.
+type watcher struct {
+	mu     sync.Mutex
+	log    []wstep
+	bad    string // a callback argument that is not a value / not our key
+	cancel context.CancelFunc
+	done   chan struct{}
+}
+
+func (w *watcher) deliver(x interface{}, key, gotKey string) bool {
+	in, err := asVal(x)
+	w.mu.Lock()
+	defer w.mu.Unlock()
+	if err != nil {
+		w.bad = err.Error()
+	}
+	if gotKey != key {
+		w.bad = fmt.Sprintf("WatchPrefix reported key %q, want %q", gotKey, key)
+	}
+	w.log = append(w.log, wstep{A: "deliver", In: in})
+	return true
+}
+
+// watchersOK: variants whose primary store lives inside the bubble (a watcher blocked on the
+// process-wide in-memory Consul store would be woken from outside the bubble).
+func watchersOK(variant string) bool {
+	return variant != "consul/metrics" && variant != "multi/consul+memberlist"
+}
+
+func startWatcher(st *store, key string, idx int) (*watcher, error) {
+	got, err := st.client.Get(context.Background(), key)
+	if err != nil {
+		return nil, err
+	}
+	in, err := asVal(got)
+	if err != nil {
+		return nil, err
+	}
+	ctx, cancel := context.WithCancel(context.Background())
+	w := &watcher{cancel: cancel, done: make(chan struct{})}
+	kind := "key"
+	if idx%2 == 0 {
+		kind = "prefix"
+	}
+	w.log = append(w.log, wstep{A: "watch", Kind: kind, In: in})
+	go func() {
+		defer close(w.done)
+		defer func() {
+			if p := recover(); p != nil {
+				w.mu.Lock()
+				w.bad = fmt.Sprint("panic: ", p)
+				w.mu.Unlock()
+			}
+		}()
+		if kind == "key" {
+			st.client.WatchKey(ctx, key, func(x interface{}) bool { return w.deliver(x, key, key) })
+		} else {
+			st.client.WatchPrefix(ctx, key, func(k string, x interface{}) bool { return w.deliver(x, key, k) })
+		}
+	}()
+	return w, nil
 }
 
 // decide draws f's decision for one entry.
@@ -148,7 +219,7 @@ func recordFree(st *store, key string, n, m int, seed int64) ([][]tstep, error) 
 
 // recordSched: inside a synctest bubble; all callers park in f; a seeded scheduler decides who
 // starts a call and whose f returns next. Deterministic for a seed.
-func recordSched(st *store, key string, n, m int, seed int64) ([][]tstep, error) {
+func recordSched(st *store, key string, n, m int, seed int64, nwatch int) ([][]tstep, [][]wstep, error) {
 	ctx := context.Background()
 	rng := rand.New(rand.NewSource(seed))
 	cs := make([]*caller, n+1)
@@ -160,12 +231,22 @@ func recordSched(st *store, key string, n, m int, seed int64) ([][]tstep, error)
 	onEnter := func(c *caller, in [][3]int) { logs[c.id].enter(in) }
 	onReturn := func(c *caller, err error) { logs[c.id].returned(err) }
 	inCall := make([]bool, n+1)
+	var ws []*watcher
+	stopWatchers := func() {
+		for _, w := range ws {
+			w.cancel()
+		}
+		// the Consul mock's long poll only notices the cancellation at its next 100 ms wake-up
+		time.Sleep(300 * time.Millisecond)
+		synctest.Wait()
+	}
+	defer stopWatchers()
 	for guard := 0; guard < 1000000; guard++ {
-		var canBegin, parked []int
+		var canBegin, parked, asleep []int
 		for c := 1; c <= n; c++ {
 			stt, _, _, _, pan := cs[c].snapshot()
 			if pan != nil {
-				return nil, fmt.Errorf("panic in CAS: %v", pan)
+				return nil, nil, fmt.Errorf("panic in CAS: %v", pan)
 			}
 			if inCall[c] && stt == stReturned {
 				inCall[c] = false
@@ -176,12 +257,32 @@ func recordSched(st *store, key string, n, m int, seed int64) ([][]tstep, error)
 			if inCall[c] && stt == stInF {
 				parked = append(parked, c)
 			}
+			if inCall[c] && stt == stLeftF { // sleeping inside CAS before a retry (memberlist: no change detected)
+				asleep = append(asleep, c)
+			}
 			if inCall[c] && stt == stIdle {
-				return nil, fmt.Errorf("caller %d neither entered f nor returned", c)
+				return nil, nil, fmt.Errorf("caller %d neither entered f nor returned", c)
 			}
 		}
-		if len(canBegin) == 0 && len(parked) == 0 {
+		if len(canBegin) == 0 && len(parked) == 0 && len(asleep) == 0 {
 			break
+		}
+		if len(asleep) > 0 && (len(canBegin)+len(parked) == 0 || rng.Intn(100) < 20) {
+			time.Sleep(time.Second) // let the second pass on the bubble clock
+			synctest.Wait()
+			continue
+		}
+		if len(canBegin)+len(parked) == 0 {
+			continue
+		}
+		if len(ws) < nwatch && rng.Intn(100) < 12 { // register a watcher at a random point of the run
+			w, err := startWatcher(st, key, len(ws)+1)
+			if err != nil {
+				return nil, nil, err
+			}
+			ws = append(ws, w)
+			synctest.Wait()
+			continue
 		}
 		// bias towards starting calls so that several callers hold the same snapshot
 		if len(canBegin) > 0 && (len(parked) == 0 || rng.Intn(100) < 45) {
@@ -196,11 +297,29 @@ func recordSched(st *store, key string, n, m int, seed int64) ([][]tstep, error)
 		}
 		synctest.Wait()
 	}
+	for len(ws) < nwatch { // late watchers: registered after the last write
+		w, err := startWatcher(st, key, len(ws)+1)
+		if err != nil {
+			return nil, nil, err
+		}
+		ws = append(ws, w)
+		synctest.Wait()
+	}
 	out := make([][]tstep, n)
 	for c := 1; c <= n; c++ {
 		out[c-1] = logs[c].steps
 	}
-	return out, nil
+	var wout [][]wstep
+	for i, w := range ws {
+		w.mu.Lock()
+		if w.bad != "" {
+			w.mu.Unlock()
+			return nil, nil, fmt.Errorf("watcher %d: %s", i+1, w.bad)
+		}
+		wout = append(wout, append([]wstep{}, w.log...))
+		w.mu.Unlock()
+	}
+	return out, wout, nil
 }
 
 // shapes of the recorded runs: callers x calls (their product bounds the size of the values)
@@ -265,7 +384,11 @@ func doRecord(t *testing.T, res *abs.Result) {
 					}
 					defer st.close()
 					if mode == "sched" {
-						tr.Ev, rerr = recordSched(st, key, n, m, tseed)
+						nwatch := 0
+						if watchersOK(variant) {
+							nwatch = 1 + rng.Intn(3)
+						}
+						tr.Ev, tr.Wt, rerr = recordSched(st, key, n, m, tseed, nwatch)
 					} else {
 						tr.Ev, rerr = recordFree(st, key, n, m, tseed)
 					}
@@ -337,6 +460,13 @@ func corruptTrace(tr *trace, how string) bool {
 					tr.Ev[c][i].In = tr.Ev[c][i].In[1:]
 					return true
 				}
+			}
+		}
+	case "deliver": // a watcher misses its last call
+		for w := range tr.Wt {
+			if n := len(tr.Wt[w]); n > 1 {
+				tr.Wt[w] = tr.Wt[w][:n-1]
+				return true
 			}
 		}
 	case "ok":
